@@ -25,6 +25,7 @@ func checkC10(ctx *Ctx, r *Report) {
 	c10OverridesForwarded(ctx, r)
 	c10EnumValueDefaultAgreement(ctx, r)
 	c10PythonMutableDefaults(ctx, r)
+	inProgressRestored(ctx, r, []string{"internal/jennies/golang/rawtypes.go", "internal/jennies/java/types.go"}, 2)
 }
 
 func c10DefaultCarried(ctx *Ctx, r *Report) map[*types.Func]bool {
